@@ -558,6 +558,123 @@ func runScenario(ctx *core.Ctx, bin string, idx int, cfg scenarioCfg) {
 	}
 }
 
+// ackRace: a subscription that has been acknowledged must receive a PUBLISH
+// issued afterwards. One SUBSCRIBE (or PSUBSCRIBE) names many channels; as soon
+// as the FIRST acknowledgement is read, another connection publishes on that
+// first channel. The message must arrive before a marker published (after all
+// acknowledgements were read) on the last channel.
+func ackRace(ctx *core.Ctx, bin string, idx int) {
+	r := ctx.SubRng(int64(idx) + 110000)
+	s, err := srv.Start(srv.Opts{Bin: bin})
+	if err != nil {
+		ctx.Inconclusive(err.Error())
+		return
+	}
+	defer s.Kill9()
+	ctl, err := respc.Dial(s.Addr(), 5*time.Second)
+	if err != nil {
+		ctx.Inconclusive(err.Error())
+		return
+	}
+	defer ctl.Close()
+	ctl.Timeout = 30 * time.Second
+	for round := 0; round < 6; round++ {
+		pattern := round%2 == 1
+		n := []int{2, 50, 1000, 4000}[r.Intn(4)]
+		sub, err := respc.Dial(s.Addr(), 5*time.Second)
+		if err != nil {
+			ctx.Inconclusive(err.Error())
+			return
+		}
+		sub.Timeout = 30 * time.Second
+		cmd := []string{"SUBSCRIBE"}
+		if pattern {
+			cmd[0] = "PSUBSCRIBE"
+		}
+		for i := 0; i < n; i++ {
+			cmd = append(cmd, fmt.Sprintf("r%d_%d:c%05d", idx, round, i))
+		}
+		first, last := cmd[1], cmd[len(cmd)-1]
+		if err := sub.Send(cmd...); err != nil {
+			sub.Close()
+			ctx.Inconclusive(err.Error())
+			return
+		}
+		ack, err := sub.Recv()
+		if err != nil || ack.Kind != '*' || len(ack.Arr) < 2 || ack.Arr[1].Str != first {
+			sub.Close()
+			ctx.Inconclusive(fmt.Sprintf("unexpected first subscribe reply: %v %s", err, ack.String()))
+			return
+		}
+		tok := fmt.Sprintf("ackrace-%d-%d", idx, round)
+		pr, err := ctl.Do("PUBLISH", first, tok)
+		if err != nil {
+			sub.Close()
+			ctx.Inconclusive(err.Error())
+			return
+		}
+		// read the remaining acknowledgements and everything else up to the marker
+		got := false
+		acks := 1
+		markerSent := false
+		ok := true
+		for {
+			if acks == n && !markerSent {
+				if _, err := ctl.Do("PUBLISH", last, "MARK"); err != nil {
+					ok = false
+					break
+				}
+				markerSent = true
+			}
+			m, err := sub.Recv()
+			if err != nil {
+				ok = false
+				break
+			}
+			if m.Kind == '*' && len(m.Arr) >= 3 {
+				kind := m.Arr[0].Str
+				switch kind {
+				case "subscribe", "psubscribe":
+					acks++
+				case "message":
+					if m.Arr[2].Str == tok {
+						got = true
+					}
+					if m.Arr[2].Str == "MARK" {
+						goto done
+					}
+				case "pmessage":
+					if len(m.Arr) >= 4 {
+						if m.Arr[3].Str == tok {
+							got = true
+						}
+						if m.Arr[3].Str == "MARK" {
+							goto done
+						}
+					}
+				}
+			}
+		}
+	done:
+		sub.Close()
+		if !ok {
+			ctx.Inconclusive("ack race: subscriber connection broke")
+			return
+		}
+		ctx.Eval(1)
+		ctx.Count("ack_race_rounds", 1)
+		kind := "subscribe"
+		if pattern {
+			kind = "psubscribe"
+		}
+		if !got {
+			ctx.Violation("lost:acknowledged-"+kind, fmt.Sprintf("%s of %d channels: the subscription to %q was acknowledged, a PUBLISH on it issued afterwards (reply %s) was never delivered although a later marker on %q was", strings.ToUpper(kind), n, first, pr.String(), last), map[string]any{"channels": n, "round": round})
+			return
+		}
+		ctx.Distinct(fmt.Sprintf("ackrace|%s|%d", kind, n))
+	}
+}
+
 // Run is the C10 check.
 func Run(ctx *core.Ctx) {
 	ctx.Rule = "one fenced collection with channels c1 (all objects) and c2 (MATCH w0*), a webhook h1 on a scripted local endpoint and 0-2 live fences, all `DETECT inside` over the whole world so that every SET produces exactly one notification carrying the write's unique token; 1-8 concurrent writers, 0-3 PUBLISH publishers, an exact and a pattern subscriber from the start, 0-3 subscribers that subscribe and leave while traffic flows, webhook failure patterns {none, refuse (listener closed 0.3-1.5 s), 5xx x k, refuse then 5xx, hang > 5 s (thorough)}; phases end with markers (PUBLISH on the same channels; a marker object for webhook/live). Oracle: the token sequence delivered to each receiver must equal the order of the causing SETs in appendonly.aof exactly (no loss, no duplicate among 2xx-answered requests, in order); PUBLISH per publisher FIFO; a mid-traffic subscriber's sequence must be a contiguous slice of the log order covering every write called after its acknowledgement and acknowledged before it left. non-trivial = a receiver that got >= 2 messages from >= 2 writers, or any outage; distinct key = (receiver kind, configuration)"
@@ -592,6 +709,9 @@ func Run(ctx *core.Ctx) {
 		}(i, c)
 	}
 	wg.Wait()
+	for i := 0; i < ctx.Pick(2, 20); i++ {
+		ackRace(ctx, bin, i)
+	}
 	if ctx.Thorough() {
 		if rbin, err := srv.Build("race"); err == nil {
 			for i := 0; i < 6; i++ {
